@@ -608,6 +608,62 @@ Definition field_matches (p : part) (f : field) : Prop :=
   f_name f = Some (p_name p) /\ f_filename f = p_filename p /\
   f_type f = expected_type p /\ f_bytes f = p_content p.
 
+(* ------------------------------------- vocabulary of the theorems *)
+Definition occurs (p s : list Z) : Prop := exists x y, s = x ++ p ++ y.
+Definition ends_lf (l : bytes) : Prop := exists z, l = z ++ [10].
+(* a CRLF inside l is at its very end *)
+Definition no_inner_crlf (l : bytes) : Prop :=
+  forall x y, l = x ++ [13; 10] ++ y -> y = [].
+
+Definition dashb (b : bytes) : bytes := 45 :: 45 :: b.
+(* a delimiter line without its line end: dash-boundary, "--" for the close
+   delimiter, transport padding (RFC 2046: spaces and tabs) *)
+Definition bline (b : bytes) (last : bool) (pad : bytes) : bytes :=
+  dashb b ++ (if last then [45; 45] else []) ++ pad.
+(* valid_boundary without the "$ matches before a final newline" quirk:
+   1..201 characters 0x20..0x7e, the last one not a space *)
+Definition boundary_ok (b : bytes) : bool :=
+  match rev b with
+  | c :: t => graphic c && forallb printable t && (len t <=? 200)
+  | [] => false
+  end.
+(* the limit test of read_lines_to_outerboundary cannot fire before the
+   delimiter line was read *)
+Definition limit_ok (limit : option Z) (clen : Z) : Prop :=
+  match limit with
+  | None => True
+  | Some L => L < 0 \/ clen + 2 < L
+  end.
+
+(* The contract of a line source, on the states [P] it can be in.
+   [rem s] are the bytes not yet handed out. *)
+Section Contract.
+  Variable St : Type.
+  Variable rl : Z -> St -> bytes * St.
+  Variable rem : St -> bytes.
+
+  Record good_reader (P : St -> Prop) : Prop := {
+    (* P is closed under reading *)
+    gr_inv : forall lim s, P s -> P (snd (rl lim s));
+    (* the pieces concatenate to the input *)
+    gr_concat : forall lim s, P s ->
+      fst (rl lim s) ++ rem (snd (rl lim s)) = rem s;
+    (* an empty piece means end of input *)
+    gr_progress : forall lim s, P s -> lim <> 0 -> rem s <> [] ->
+      fst (rl lim s) <> [];
+    (* a piece never runs past a CRLF *)
+    gr_line : forall lim s, P s -> no_inner_crlf (fst (rl lim s));
+    (* a piece that does not end with LF is a size cut or the end of input *)
+    gr_full : forall lim s, P s -> ~ ends_lf (fst (rl lim s)) ->
+      0 <= lim <= len (fst (rl lim s)) \/ rem (snd (rl lim s)) = [];
+    (* when a cut separates CR from LF, the LF comes back on its own *)
+    gr_lone_lf : forall lim lim' s, P s -> lim' <> 0 ->
+      (exists z, fst (rl lim s) = z ++ [13]) ->
+      (exists t, rem (snd (rl lim s)) = 10 :: t) ->
+      fst (rl lim' (snd (rl lim s))) = [10]
+  }.
+End Contract.
+
 (* ---------------------------------------------------- correspondence *)
 Definition MAXLINE : Z := 65536.
 Definition BUFSIZE : Z := 8192.
